@@ -60,9 +60,11 @@ class ScriptedSolver:
         self.log = log
 
     def init(self, t, u, *, damp):
+        self.kw = {("damp", float(damp))}
         return St(jnp.asarray(t, dtype=jnp.float64), jnp.asarray(0))
 
     def step(self, state, *, dt, damp):
+        self.kw.add(("damp", float(damp)))
         self.log.append(["step", F(state.t), F(dt)])
         return St(state.t + dt, state.n + 1)
 
@@ -96,6 +98,7 @@ class ScriptedError:
 
     def estimate_error_norm(self, state, previous, proposed, *, dt, atol, rtol, damp):
         self.calls = getattr(self, "calls", 0) + 1
+        self.kw = getattr(self, "kw", set()) | {("atol", float(atol)), ("rtol", float(rtol)), ("damp", float(damp))}
         if self.calls > 3000:
             raise RuntimeError("too-many-attempts (3000): the rejection loop does not terminate")
         h = prof_at(self.h0, self.prof, F(previous.t))
@@ -141,10 +144,13 @@ def run_case(c):
     solve = ivpsolve.solve_adaptive_save_at(solver=solver, error=err, control=control, clip_dt=c["clip"], warn=False)
     save_at = jnp.asarray([c["t0"]] + c["cps"], dtype=jnp.float64)
     with jax.disable_jit():
-        out = solve(None, save_at=save_at, atol=1e-3, rtol=1e-3, dt0=c["dt0"], eps=c["eps"])
+        # distinct powers of two: what the scripted estimator / solver receive must be what the caller passed
+        out = solve(None, save_at=save_at, atol=2.0 ** -7, rtol=2.0 ** -11, damp=2.0 ** -5, dt0=c["dt0"], eps=c["eps"])
     sols = [[float(t), int(n)] for t, n in zip(out["solution"].t, out["solution"].n)]
     fin = [float(out["solution1"].t), int(out["solution1"].n)]
-    return {"log": log, "sols": sols, "final": fin}
+    received = sorted(getattr(err, "kw", set()) | getattr(solver, "kw", set()))
+    return {"log": log, "sols": sols, "final": fin, "received": [list(x) for x in received],
+            "passed": [["atol", 2.0 ** -7], ["damp", 2.0 ** -5], ["rtol", 2.0 ** -11]]}
 
 
 def main():
